@@ -97,6 +97,8 @@ FnPreds ==
     \cup {Call(f, <<pp, Lit("1")>>) : f \in {"contains", "starts-with"}, pp \in FnPaths \cup {SelfN}}
     \cup {Bin(op, pp, NumL(k)) : op \in {"=", "<", ">=", "!="}, k \in 1 .. 2, pp \in {R1("child", NTAny), R1("descendant", NTAny), SelfN}}
     \cup {Bin(op, NumL(1), pp) : op \in {"<", ">="}, pp \in {R1("child", NTAny), SelfN}}
+    \cup {Bin(op, pp, qq) : op \in {"=", "!="}, pp \in {R1("child", NTAny), R1("descendant", NTAny), R1("ancestor", NTAny), R1("attribute", NTAny)},
+                           qq \in {R1("child", NTAny), R1("following-sibling", NTAny), R1("descendant", NTName("a")), SelfN}}
     \cup {Call("not", <<Call("contains", <<pp, Lit("1")>>)>>) : pp \in FnPaths \cup {SelfN}}
     \cup {Bin("=", Call("local-name", <<>>), Lit("a")), Bin("!=", Call("local-name", <<>>), Lit("a")), Call("true", <<>>), Call("false", <<>>),
           Bin("and", Bin("=", Call("local-name", <<>>), Lit("a")), Bin(">", Call("count", <<R1("child", NTAny)>>), NumL(0))),
